@@ -9,6 +9,7 @@
   the check (chi-square on real assignments), labelled as a statistical test.
 -/
 import Pyab.Properties.C03
+import Pyab.Properties.EvaluatorPremise
 import Pyab.Properties.C01_key
 namespace Pyab.Properties
 open Pyab Pyab.Spec
